@@ -31,7 +31,7 @@ func w(kv ...string) map[string]string {
 var gpool = []gpat{
 	{"/u/{id}", []map[string]string{w("id", "7q"), w("id", "Q9")}, 0},
 	{"/u/{id:\\d+}", []map[string]string{w("id", "77"), w("id", "908")}, 0},
-	{"/u/{id:digit}", []map[string]string{w("id", "78")}, 0},
+	{"/u/{id:digit}", []map[string]string{w("id", "78"), w("id", "99999999999999999999"), w("id", "000000000000000000000078")}, 0},
 	{"/u/{id:word}", []map[string]string{w("id", "7q8")}, 0},
 	{"/u/5", []map[string]string{w()}, 0},
 	{"/u/{id}/x", []map[string]string{w("id", "7q")}, 0},
@@ -60,7 +60,7 @@ var gpool = []gpat{
 	{"/posts/{id}/author", []map[string]string{w("id", "7q")}, 2},
 	{"/posts/{id}/author/email", []map[string]string{w("id", "7q")}, 2},
 	{"/posts/{id}", []map[string]string{w("id", "7q")}, 2},
-	{"/posts/{id:digit}/author", []map[string]string{w("id", "78")}, 2},
+	{"/posts/{id:digit}/author", []map[string]string{w("id", "78"), w("id", "18446744073709551616")}, 2},
 	{"/", []map[string]string{w()}, 2},
 	{"/s/a", []map[string]string{w()}, 3}, {"/s/b", []map[string]string{w()}, 3}, {"/s/c", []map[string]string{w()}, 3},
 	{"/s/d", []map[string]string{w()}, 3}, {"/s/e", []map[string]string{w()}, 3}, {"/s/f", []map[string]string{w()}, 3},
@@ -411,7 +411,9 @@ func genParams(r *rand.Rand, n int, out *bufio.Writer) {
 		ops := []map[string]any{}
 		for s := 0; s < 6+r.IntN(8); s++ {
 			k := keys[r.IntN(len(keys))]
-			switch r.IntN(12) {
+			switch r.IntN(14) {
+			case 12, 13:
+				ops = append(ops, map[string]any{"op": "delset", "key": l1enc(k), "key2": l1enc(keys[r.IntN(len(keys))]), "val": l1enc(val())})
 			case 11:
 				ops = append(ops, map[string]any{"op": "stale"})
 			case 10:
